@@ -823,7 +823,9 @@ pub(crate) fn merge_trees(
     save: &impl Fn(Tree) -> RusticResult<(TreeId, u64)>,
     summary: &mut SnapshotSummary,
 ) -> RusticResult<TreeId> {
-    // We store nodes with the index of the tree in an Binary Heap where we sort only by node name
+    // We store nodes with the index of the tree in an Binary Heap where we sort only by node name.
+    // Note: Trees are sorted by `Node::name()`, i.e. by the unescaped name - the order of the escaped
+    // names (`Node::name`) differs for names containing e.g. `"`, `\` or non-unicode bytes.
     struct SortedNode(Node, usize);
     impl PartialEq for SortedNode {
         fn eq(&self, other: &Self) -> bool {
@@ -838,7 +840,7 @@ pub(crate) fn merge_trees(
     impl Eq for SortedNode {}
     impl Ord for SortedNode {
         fn cmp(&self, other: &Self) -> Ordering {
-            self.0.name.cmp(&other.0.name).reverse()
+            self.0.name().cmp(&other.0.name()).reverse()
         }
     }
 
